@@ -30,7 +30,7 @@ def shards(tier):
 
 def gates(c, tier):
     need = ["int-write", "int-read-padded", "int-read-random", "enum", "tag", "tag-multioctet", "len-long", "bool", "octets", "nest",
-            "child-refuses-sibling", "reader-op-sequences", "repo-tests-under-contracts:runs", "contract:_pack_asn1_integer", "contract:_read_asn1_integer", "contract:_pack_asn1",
+            "child-refuses-sibling", "reader-op-sequences", "writable-input", "truncated-with-header", "repo-tests-under-contracts:runs", "contract:_pack_asn1_integer", "contract:_read_asn1_integer", "contract:_pack_asn1",
             "contract:_read_asn1_header", "contract:_pack_asn1_octet_number", "contract:_unpack_asn1_octet_number"]
     return [f"never exercised: {k}" for k in need if c.get(k, 0) == 0]
 
@@ -82,6 +82,55 @@ def chk_int_content(content, enum, trailer):
             out.append(("int-read-consumed", f"content {content.hex()}: wrong consumption"))
     except Exception as e:
         out.append((f"int-read-exc:{norm_msg(e)}", f"content {content.hex()} raised {type(e).__name__}: {e}"))
+    return out
+
+
+def chk_writable_input(v, kind):
+    """Reading from a bytearray / writable memoryview must not modify the caller's buffer; reading the same bytes
+    again must give the same value."""
+    out = []
+    enc = _tlv(0, False, 2, ber.int_content(v))
+    buf = bytearray(enc + b"\x04\x01z")
+    src = buf if kind == 0 else memoryview(buf)
+    try:
+        a = A.ASN1Reader(src).read_integer()
+        b = A.ASN1Reader(src).read_integer()
+        rd = A.ASN1Reader(src)
+        h = rd.peek_header()
+        c = rd.read_integer(header=h)
+        rest = rd.read_octet_string()
+    except Exception as e:
+        return [(f"writable-input-exc:{norm_msg(e)}", f"{type(e).__name__}: {e}")]
+    if bytes(buf) != enc + b"\x04\x01z":
+        out.append(("reader-modified-callers-buffer", f"reading INTEGER {v} from a {'bytearray' if kind == 0 else 'memoryview'} rewrote the input to {bytes(buf).hex()}"))
+    if not (a == b == c == v) or rest != b"z":
+        out.append(("re-read-differs", f"INTEGER {v}: successive reads of the same buffer gave {a}, {b}, {c}"))
+    return out
+
+
+def chk_truncated_with_header(r):
+    """A value whose content is not fully available must be refused (NotEnougData) also when header= is supplied."""
+    out = []
+    content = r.randbytes(r.choice([2, 4, 6, 200]))
+    kind = r.choice(["int", "oct", "seq"])
+    num, pc = {"int": (2, False), "oct": (4, False), "seq": (16, True)}[kind]
+    full = _tlv(0, pc, num, content)
+    cut = r.randrange(len(full) - len(content), len(full))  # header complete, content short (possibly empty)
+    for with_header in (False, True):
+        rd = A.ASN1Reader(full[:cut])
+        try:
+            h = rd.peek_header() if with_header else None
+            if kind == "int":
+                got = rd.read_integer(header=h)
+            elif kind == "oct":
+                got = rd.read_octet_string(header=h)
+            else:
+                got = rd.read_sequence(header=h).get_remaining_data()
+            out.append((f"truncated-value-returned:{kind}:{'header' if with_header else 'noheader'}", f"{kind} with {len(content)} content octets declared but only {cut - (len(full) - len(content))} available was read as {got!r}"))
+        except A.NotEnougData:
+            pass
+        except Exception as e:
+            out.append((f"truncated-value-exc:{kind}:{type(e).__name__}", f"truncated {kind}: {type(e).__name__}: {e} (expected NotEnougData)"))
     return out
 
 
@@ -373,6 +422,12 @@ def run_case(kind, args):
         return chk_long_length_forms(bytes(args[0]), args[1], bytes(args[2]))
     if kind == "tree":
         return chk_tree(_untree(args[0]), bytes(args[1]))
+    if kind == "writable":
+        return chk_writable_input(args[0], args[1])
+    if kind == "truncated":
+        import random as _random
+
+        return chk_truncated_with_header(_random.Random(args[0]))
     if kind == "readerops":
         import random as _random
 
@@ -457,6 +512,8 @@ def run_shard(ctx: Ctx, acc: Acc):
         val = r.randbytes(r.choice([0, 1, 127, 128, 255, 256, 300]))
         do("lenform", (val, r.choice([1, 2, 3, 4, 5, 8, 126]), r.choice(TRAILERS)), True, "len-long")
         acc.count("octets")
+        do("writable", (gv.g_int(r), i % 2), True, "writable-input")
+        do("truncated", (r.randrange(1 << 60),), True, "truncated-with-header")
         if i % 2 == 0:
             do("readerops", (r.randrange(1 << 60), r.choice([2, 3, 5, 9]), r.choice(TRAILERS)), True, "reader-op-sequences")
         if i % 4 == 0:
